@@ -32,6 +32,10 @@ Perturbations
            crystal_structure): re-executing a module must not lose data that was loaded before
   subclass every private table the check creates is an instance of a user subclass of PeriodicTable (pbt/subtable.py:
            undefined attributes are looked up in the public table)
+  rejects  between the oracle calls the caller makes calls that the library legitimately REJECTS and catches the
+           exception (unknown symbol / isotope / charge, unbalanced bracket, bare '@', percentages above 100, no
+           density, unknown packing factor, invalid sequence code, missing FASTA file, ... on the public and on a
+           private table; 30 kinds, each verified to raise when the task starts): a rejected call leaves nothing behind
 Tasks of the history properties fork one interpreter per history and must start from a process that never
 imported periodictable, so `imports` and `thread` are not applied to C08, C09 and C10.
 """
@@ -39,7 +43,7 @@ import hashlib
 import os
 import sys
 
-BITS = ["cwd", "numpy", "thread", "gc", "imports", "decimal", "pyparsing", "reload", "subclass"]
+BITS = ["cwd", "numpy", "thread", "gc", "imports", "decimal", "pyparsing", "reload", "subclass", "rejects"]
 NO_PRELOAD = {"C08", "C09", "C10"}
 RELOADABLE = ["nsf", "xsf", "activation", "fasta", "cromermann", "util", "magnetic_ff", "covalent_radius",
               "crystal_structure"]
@@ -64,12 +68,12 @@ def choose(seed, prop, task, mod=None, idx=None):
     if prop in NO_PRELOAD:
         on = [b for b in on if b not in ("imports", "thread")]
     if prop in NO_PRELOAD:
-        on = [b for b in on if b != "reload"]
+        on = [b for b in on if b not in ("reload", "rejects")]
     # tasks whose first periodictable action is part of the case (initialisation routes, private-first
     # configurations) are named by the module: PRISTINE_TASKS = ("route-", ...) name prefixes, or PRISTINE = True
     if mod is not None and (getattr(mod, "PRISTINE", False)
                             or any(task.startswith(p) for p in getattr(mod, "PRISTINE_TASKS", ()))):
-        on = [b for b in on if b not in ("imports", "reload")]
+        on = [b for b in on if b not in ("imports", "reload", "rejects")]
     if mod is not None:
         on = [b for b in on if b not in getattr(mod, "AMBIENT_SKIP", ())]
     if task.startswith("fuzz"):
@@ -79,7 +83,7 @@ def choose(seed, prop, task, mod=None, idx=None):
 
 def enter(on, seed, prop, task, repo):
     """Apply the perturbations named in *on* to this process.  Returns a dict of run-time switches for Ctx."""
-    sw = {"thread": "thread" in on, "gc": "gc" in on, "names": list(on)}
+    sw = {"thread": "thread" in on, "gc": "gc" in on, "names": list(on), "rejects": "rejects" in on}
     if "cwd" in on:
         import tempfile
         import warnings
@@ -128,6 +132,45 @@ def enter(on, seed, prop, task, repo):
             if h[i] & 1:
                 importlib.reload(importlib.import_module("periodictable." + m))
     return sw
+
+
+_REJECTS = []
+
+
+def rejected_call(n):
+    """Make the n-th legitimately rejected call (round robin) and swallow its exception, as a caller would."""
+    if not _REJECTS:
+        import periodictable as pt
+        from periodictable import core, mass, density, fasta, activation, nsf
+        T = core.PeriodicTable("ambient-rejects")
+        mass.init(T)
+        density.init(T)
+        cand = [
+            lambda: pt.formula("Qq2O"), lambda: pt.formula("H2O)"), lambda: pt.formula("Fe[999]2O3"),
+            lambda: pt.formula("Fe{9+}O"), lambda: pt.formula("H2O@"), lambda: pt.formula("Zz3(H2O)2", table=T),
+            lambda: pt.formula("(H2O", table=T), lambda: pt.formula("O[99]", table=T),
+            lambda: pt.formula("60wt% NaCl@2 // 50wt% KCl@2 // H2O@1"), lambda: pt.formula("5 furlongs Si"),
+            lambda: pt.neutron_sld("H2O"), lambda: pt.neutron_sld("Qq", table=T, density=1),
+            lambda: pt.xray_sld("SiO2", energy=8.0), lambda: pt.elements.symbol("Qq"),
+            lambda: pt.elements.name("unobtainium"), lambda: pt.elements.isotope("999-Fe"), lambda: pt.elements.Fe[999],
+            lambda: pt.elements.Fe.ion[99], lambda: T.Fe[999], lambda: fasta.Sequence("x", "AKR1", type="aa"),
+            lambda: fasta.Sequence("x", "AKR", type="protein"), lambda: pt.formula("dna:ACGQ1"),
+            lambda: activation.Sample("Qq", 1), lambda: nsf.D2O_sld("Qq2O"),
+            lambda: pt.mix_by_weight("H2O@1", 1, "Qq", 2), lambda: pt.mix_by_volume("H2O", 1, "NaCl", 2),
+            lambda: pt.formula("NaCl").volume("dodecahedral"), lambda: pt.elements.H.ion[1].xray.f0(0.5),
+            lambda: nsf.neutron_composite_sld(["Qq"], wavelength=1.0),
+            lambda: fasta.Sequence.load("/nonexistent/file.fasta"),
+        ]
+        for fn in cand:
+            try:
+                fn()
+            except Exception:  # noqa
+                _REJECTS.append(fn)
+    if _REJECTS:
+        try:
+            _REJECTS[n % len(_REJECTS)]()
+        except Exception:  # noqa
+            pass
 
 
 def leave(sw):
